@@ -21,8 +21,16 @@
 (*   RevokeNet(c)       issuer.Revoke -> signed revocation -> network       *)
 (*   Serve(l)           StatusList2021.Credential(issuer, page) (HTTP GET   *)
 (*                      of the list): re-signed when <= 1/4 validity left   *)
+(*   ServeBegin(s,l) / ServeResign(s)  the same GET by goroutine s, split   *)
+(*                      where the code reads (stored list, is a re-sign     *)
+(*                      needed?) and where it writes (transaction: lock,    *)
+(*                      read revocations, sign, store), so that Revoke,     *)
+(*                      other GETs and time can come in between             *)
 (*   Deliver(c,k,n)     ambassador -> verifier.RegisterRevocation at node n *)
-(*                      k = "genuine" or a FORGED document class            *)
+(*                      k = "genuine" or a FORGED document class, made by   *)
+(*                      another party whose DID is in textual relation r    *)
+(*                      to the issuer's DID (unrelated / a prefix / the     *)
+(*                      parent / an extension: "lookalike" parties)         *)
 (*   Verify(c,n,src)    verifier.Verify at node n; refreshes the cached     *)
 (*                      copy first when it is missing/older than the TTL;   *)
 (*                      src says what the GET returns: the genuine list, a  *)
@@ -50,6 +58,7 @@ CONSTANTS
     MaxTicks, MaxForge,
     Kinds,              \* subset of {"sl", "net"}
     RevForgeKinds,      \* forged revocation documents: subset of {"othersigner","otherissuer","wrongkey","resubject"}
+    Rels,               \* textual relation of the forger's DID to the issuer's DID: subset of {"unrelated","prefix","parent","extension"}
     Srcs,               \* outcomes of a GET of a list: subset of {"up","down","forged-set","forged-clear","otherlist"}
     ForeignTarget,      \* issuer whose list <<i,1>> slot 0 the outsider's credential "fx" names, or "none"
     Local,              \* TRUE: verification on the issuer node is part of the behaviours
@@ -57,6 +66,8 @@ CONSTANTS
     ListSubjectChecked, \* fetched list credential must have credentialSubject.id = the URL named in the entry
     RevIssuerChecked,   \* RegisterRevocation: issuer = credential id prefix = owner of the proof key, signature valid
     ResignBeforeExpiry, \* Credential(): re-sign when no more than MinLeft is left
+    ResignRereads,      \* Credential(): the revocations are read INSIDE the re-sign transaction (not taken from a snapshot read before it)
+    Servers,            \* goroutines serving a list in two steps (ServeBegin / ServeResign)
     RenewCreatedAt,     \* a refreshed copy counts as new for the cache TTL. The code: FALSE - the upsert (gorm OnConflict UpdateAll) leaves
                         \* created_at of an existing row alone, so after the first TTL every verification downloads the list again
     Procs,              \* goroutines for the split Entry transaction ({} = atomic transactions only)
@@ -80,7 +91,8 @@ NoCopy == [has |-> FALSE, bits |-> {}, fresh |-> FALSE, from |-> NoList, signer 
 VARIABLES
     nIssued,   \* number of credentials issued so far
     cred,      \* [Creds -> [iss, kind, list, slot]]
-    pages,     \* [Issuers -> Seq([last, bits, left])]   status_list + status_list_entry + managed status_list_credential
+    pages,     \* [Issuers -> Seq([last, bits, stored, left])]: status_list.last_issued_index, status_list_entry rows (the
+               \* issuer's revocations), bitstring and remaining validity of the managed status_list_credential row
     revoked,   \* credentials the ISSUER has revoked (ground truth)
     known,     \* [Nodes -> SUBSET Creds]  revocations stored by the verifier of the node
     cache,     \* [Nodes -> [Lists -> copy]]  status_list_credential rows of external lists (+ provenance: from, signer)
@@ -88,10 +100,11 @@ VARIABLES
     must,      \* ghost: [Nodes -> SUBSET Creds] credentials the node is obliged to reject
                \*        (genuine revocation received / list refreshed from the issuer after the bit was set)
     epc, esnap,\* split Entry transaction: control point and the row read under the lock, per goroutine
+    spc, ssnap,\* split GET of a list: control point and what was read before the transaction, per serving goroutine
     hist
 
-vars == <<nIssued, cred, pages, revoked, known, cache, ticks, forges, must, epc, esnap, hist>>
-view == <<nIssued, cred, pages, revoked, known, cache, ticks, forges, must, epc, esnap>>
+vars == <<nIssued, cred, pages, revoked, known, cache, ticks, forges, must, epc, esnap, spc, ssnap, hist>>
+view == <<nIssued, cred, pages, revoked, known, cache, ticks, forges, must, epc, esnap, spc, ssnap>>
 
 Log(e) == hist' = IF Hist THEN Append(hist, e) ELSE hist
 
@@ -107,12 +120,14 @@ Init ==
     /\ must = [n \in Nodes |-> {}]
     /\ epc = [p \in Procs |-> "idle"]
     /\ esnap = [p \in Procs |-> [i |-> "-", page |-> 0, last |-> 0]]
+    /\ spc = [s \in Servers |-> "idle"]
+    /\ ssnap = [s \in Servers |-> [list |-> NoList, bits |-> {}]]
     /\ hist = <<>>
 
 Issued(c) == cred[c].kind # "-"
 Exists(l) == l[1] \in Issuers /\ l[2] >= 1 /\ l[2] <= Len(pages[l[1]])
 Pg(l) == pages[l[1]][l[2]]
-NewPage == [last |-> 0, bits |-> {}, left |-> Validity]
+NewPage == [last |-> 0, bits |-> {}, stored |-> {}, left |-> Validity]
 Quiet == \A p \in Procs : epc[p] = "idle"
 
 (***************************************************************************)
@@ -138,7 +153,7 @@ IssueObs(i, kind, pg, sl) ==
           ELSE /\ cred' = [cred EXCEPT ![c] = [iss |-> i, kind |-> "net", list |-> NoList, slot |-> 0]]
                /\ pages' = pages
        /\ Log([a |-> "Issue", i |-> i, kind |-> kind, c |-> c, page |-> IF kind = "sl" THEN pg ELSE 0, slot |-> IF kind = "sl" THEN sl ELSE 0])
-    /\ UNCHANGED <<revoked, known, cache, ticks, forges, must, epc, esnap>>
+    /\ UNCHANGED <<revoked, known, cache, ticks, forges, must, epc, esnap, spc, ssnap>>
 
 Issue(i, kind) == IssueObs(i, kind, NextAlloc(i).page, NextAlloc(i).slot)
 
@@ -153,43 +168,70 @@ RevokeStatus(c) ==
        IF cred[c].slot \in Pg(l).bits
        THEN /\ UNCHANGED <<pages, revoked>>
             /\ Log([a |-> "RevokeStatus", c |-> c, res |-> "already"])
-       ELSE /\ pages' = [pages EXCEPT ![l[1]][l[2]].bits = @ \cup {cred[c].slot}, ![l[1]][l[2]].left = Validity]
+       ELSE /\ pages' = [pages EXCEPT ![l[1]][l[2]].bits = @ \cup {cred[c].slot},
+                                      ![l[1]][l[2]].stored = Pg(l).bits \cup {cred[c].slot},   \* all rows are read in the transaction
+                                      ![l[1]][l[2]].left = Validity]
             /\ revoked' = revoked \cup {c}
             /\ Log([a |-> "RevokeStatus", c |-> c, res |-> "ok"])
-    /\ UNCHANGED <<nIssued, cred, known, cache, ticks, forges, must, epc, esnap>>
+    /\ UNCHANGED <<nIssued, cred, known, cache, ticks, forges, must, epc, esnap, spc, ssnap>>
 
 \* did:nuts credential: signed revocation published on the network (and kept in the issuer store)
 RevokeNet(c) ==
     /\ c \in Own /\ cred[c].kind = "net"
     /\ revoked' = revoked \cup {c}
     /\ Log([a |-> "RevokeNet", c |-> c, res |-> IF c \in revoked THEN "already" ELSE "ok"])
-    /\ UNCHANGED <<nIssued, cred, pages, known, cache, ticks, forges, must, epc, esnap>>
+    /\ UNCHANGED <<nIssued, cred, pages, known, cache, ticks, forges, must, epc, esnap, spc, ssnap>>
 
 (***************************************************************************)
 (* StatusList2021.Credential (the GET handler of the list)                  *)
 (***************************************************************************)
-LeftAfterServe(l) == IF ResignBeforeExpiry /\ Pg(l).left <= MinLeft THEN Validity ELSE Pg(l).left
-ServePages(l) == [pages EXCEPT ![l[1]][l[2]].left = LeftAfterServe(l)]
+NeedsResign(l) == ResignBeforeExpiry /\ Pg(l).left <= MinLeft
+LeftAfterServe(l) == IF NeedsResign(l) THEN Validity ELSE Pg(l).left
+\* a GET in one piece: nothing comes between its reads and its transaction
+ServePages(l) == [pages EXCEPT ![l[1]][l[2]].left = LeftAfterServe(l),
+                               ![l[1]][l[2]].stored = IF NeedsResign(l) THEN Pg(l).bits ELSE @]
 
 Serve(l) ==
     /\ Exists(l) /\ Quiet
     /\ pages' = ServePages(l)
     /\ Log([a |-> "Serve", i |-> l[1], p |-> l[2]])
-    /\ UNCHANGED <<nIssued, cred, revoked, known, cache, ticks, forges, must, epc, esnap>>
+    /\ UNCHANGED <<nIssued, cred, revoked, known, cache, ticks, forges, must, epc, esnap, spc, ssnap>>
+
+\* the GET in two pieces. First the reads: is the list managed, the stored list, does it live long enough?
+ServeBegin(s, l) ==
+    /\ spc[s] = "idle" /\ Exists(l) /\ Quiet
+    /\ IF NeedsResign(l)
+       THEN /\ spc' = [spc EXCEPT ![s] = "resign"]
+            /\ ssnap' = [ssnap EXCEPT ![s] = [list |-> l, bits |-> Pg(l).bits]]
+            /\ Log([a |-> "ServeBegin", s |-> s, i |-> l[1], p |-> l[2], res |-> "resign"])
+       ELSE /\ UNCHANGED <<spc, ssnap>>                                   \* the stored list is returned
+            /\ Log([a |-> "ServeBegin", s |-> s, i |-> l[1], p |-> l[2], res |-> "cached"])
+    /\ UNCHANGED <<nIssued, cred, pages, revoked, known, cache, ticks, forges, must, epc, esnap>>
+\* .. then the transaction: lock the row, read the revocations, sign, store
+ServeResign(s) ==
+    /\ spc[s] = "resign"
+    /\ LET l == ssnap[s].list IN
+       pages' = [pages EXCEPT ![l[1]][l[2]].stored = IF ResignRereads THEN Pg(l).bits ELSE ssnap[s].bits,
+                              ![l[1]][l[2]].left = Validity]
+    /\ spc' = [spc EXCEPT ![s] = "idle"]
+    /\ Log([a |-> "ServeResign", s |-> s])
+    /\ UNCHANGED <<nIssued, cred, revoked, known, cache, ticks, forges, must, epc, esnap, ssnap>>
 
 (***************************************************************************)
 (* network revocations: ambassador -> verifier.RegisterRevocation           *)
 (***************************************************************************)
 \* res: TRUE = the node stored the revocation (model: by the rule; trace validation: as observed)
-DeliverObs(c, k, n, res) ==
-    /\ c \in Own /\ cred[c].kind = "net"
-    /\ IF k = "genuine" THEN c \in revoked ELSE k \in RevForgeKinds /\ forges < MaxForge
+\* a genuine revocation exists for did:nuts credentials only; a forged one can name any credential
+DeliverObs(c, k, r, n, res) ==
+    /\ c \in Own /\ Issued(c)
+    /\ IF k = "genuine" THEN cred[c].kind = "net" /\ c \in revoked /\ r = "self"
+                        ELSE k \in RevForgeKinds /\ r \in Rels /\ forges < MaxForge
     /\ forges' = IF k = "genuine" THEN forges ELSE forges + 1
     /\ known' = IF res THEN [known EXCEPT ![n] = @ \cup {c}] ELSE known
     /\ must' = IF k = "genuine" THEN [must EXCEPT ![n] = @ \cup {c}] ELSE must
-    /\ Log([a |-> "Deliver", c |-> c, k |-> k, n |-> n])
-    /\ UNCHANGED <<nIssued, cred, pages, revoked, cache, ticks, epc, esnap>>
-Deliver(c, k, n) == DeliverObs(c, k, n, k = "genuine" \/ ~RevIssuerChecked)
+    /\ Log([a |-> "Deliver", c |-> c, k |-> k, r |-> r, n |-> n])
+    /\ UNCHANGED <<nIssued, cred, pages, revoked, cache, ticks, epc, esnap, spc, ssnap>>
+Deliver(c, k, r, n) == DeliverObs(c, k, r, n, k = "genuine" \/ ~RevIssuerChecked)
 
 (***************************************************************************)
 (* verifier.Verify: IsRevoked(id), then credentialStatus.Verify             *)
@@ -198,7 +240,8 @@ Deliver(c, k, n) == DeliverObs(c, k, n, k = "genuine" \/ ~RevIssuerChecked)
 OtherPage(l) == <<l[1], IF l[2] = 1 THEN 2 ELSE 1>>
 OtherIssuerList(l) == <<CHOOSE j \in Issuers : j # l[1], 1>>
 Stale(n, l) == ~cache[n][l].has \/ ~cache[n][l].fresh
-GenuineCopy(l) == [has |-> TRUE, bits |-> Pg(l).bits, fresh |-> TRUE, from |-> l, signer |-> l[1]]
+\* what a client gets: the stored list after the GET's own (possible) re-sign
+GenuineCopy(l) == [has |-> TRUE, bits |-> ServePages(l)[l[1]][l[2]].stored, fresh |-> TRUE, from |-> l, signer |-> l[1]]
 \* the list credential the issuer node produces for this GET (NoList: 404 / unreachable / answered by the attacker)
 Produced(l, src) ==
     CASE src = "up" -> IF Exists(l) THEN l ELSE NoList
@@ -247,16 +290,16 @@ VerifyL(c, n, src, lic) ==
                \* (a download for the outsider's credential does not count: the node may refuse a list not issued by x)
                /\ must' = IF ok /\ src = "up" /\ cred[c].kind = "sl" THEN [must EXCEPT ![n] = @ \cup RevokedOn(l)] ELSE must
     /\ Log([a |-> "Verify", c |-> c, n |-> n, src |-> src, v |-> ModelVerdict(c, n, src, lic)])
-    /\ UNCHANGED <<nIssued, cred, revoked, known, ticks, epc, esnap>>
+    /\ UNCHANGED <<nIssued, cred, revoked, known, ticks, epc, esnap, spc, ssnap>>
 
 Verify(c, n, src) == VerifyL(c, n, src, ListIssuerChecked)
 
 \* verifier of the issuer node: the managed list is always up to date
-LocalVerdict(c) == IF Exists(cred[c].list) /\ cred[c].slot \in Pg(cred[c].list).bits THEN "revoked" ELSE "valid"
+LocalVerdict(c) == IF Exists(cred[c].list) /\ cred[c].slot \in Pg(cred[c].list).stored THEN "revoked" ELSE "valid"
 VerifyLocal(c) ==
     /\ Local /\ Issued(c) /\ cred[c].kind # "net" /\ Quiet
     /\ Log([a |-> "VerifyLocal", c |-> c, v |-> LocalVerdict(c)])
-    /\ UNCHANGED <<nIssued, cred, pages, revoked, known, cache, ticks, forges, must, epc, esnap>>
+    /\ UNCHANGED <<nIssued, cred, pages, revoked, known, cache, ticks, forges, must, epc, esnap, spc, ssnap>>
 
 Dec(x) == IF x = 0 THEN 0 ELSE x - 1
 Tick ==
@@ -265,7 +308,7 @@ Tick ==
     /\ pages' = [i \in Issuers |-> [p \in 1..Len(pages[i]) |-> [pages[i][p] EXCEPT !.left = Dec(@)]]]
     /\ cache' = [n \in Nodes |-> [l \in Lists |-> [cache[n][l] EXCEPT !.fresh = FALSE]]]
     /\ Log([a |-> "Tick"])
-    /\ UNCHANGED <<nIssued, cred, revoked, known, forges, must, epc, esnap>>
+    /\ UNCHANGED <<nIssued, cred, revoked, known, forges, must, epc, esnap, spc, ssnap>>
 
 (***************************************************************************)
 (* Entry() on a database with concurrent transactions: SELECT .. FOR UPDATE *)
@@ -283,7 +326,7 @@ EntryRead(p, i, seen) ==
     /\ esnap' = [esnap EXCEPT ![p] = [i |-> i, page |-> seen, last |-> IF seen = 0 THEN 0 ELSE pages[i][seen].last]]
     /\ epc' = [epc EXCEPT ![p] = "locked"]
     /\ Log([a |-> "EntryRead", p |-> p, i |-> i, seen |-> seen])
-    /\ UNCHANGED <<nIssued, cred, pages, revoked, known, cache, ticks, forges, must>>
+    /\ UNCHANGED <<nIssued, cred, pages, revoked, known, cache, ticks, forges, must, spc, ssnap>>
 EntryWrite(p) ==
     /\ epc[p] = "locked"
     /\ LET s == esnap[p]
@@ -299,13 +342,14 @@ EntryWrite(p) ==
                /\ pages' = AllocPages(s.i, pg, sl)
                /\ Log([a |-> "EntryWrite", p |-> p, res |-> "ok"])
     /\ epc' = [epc EXCEPT ![p] = "idle"]
-    /\ UNCHANGED <<revoked, known, cache, ticks, forges, must, esnap>>
+    /\ UNCHANGED <<revoked, known, cache, ticks, forges, must, esnap, spc, ssnap>>
 
 Next ==
     \/ \E i \in Issuers, k \in Kinds : Issue(i, k)
     \/ \E c \in Own : RevokeStatus(c) \/ RevokeNet(c)
-    \/ \E l \in Lists : Serve(l)
-    \/ \E c \in Own, n \in Nodes : \E k \in {"genuine"} \cup RevForgeKinds : Deliver(c, k, n)
+    \/ \E l \in Lists : Serve(l) \/ \E s \in Servers : ServeBegin(s, l)
+    \/ \E s \in Servers : ServeResign(s)
+    \/ \E c \in Own, n \in Nodes : Deliver(c, "genuine", "self", n) \/ \E k \in RevForgeKinds, r \in Rels : Deliver(c, k, r, n)
     \/ \E c \in Creds, n \in Nodes, s \in Srcs : Verify(c, n, s)
     \/ \E c \in Creds : VerifyLocal(c)
     \/ Tick
@@ -322,7 +366,7 @@ Spec == Init /\ [][Next]_vars
 TypeOK ==
     /\ nIssued \in 0..MaxCreds /\ revoked \subseteq Own
     /\ \A i \in Issuers : Len(pages[i]) <= MaxPages
-    /\ \A i \in Issuers : \A p \in 1..Len(pages[i]) : pages[i][p].last \in Slots /\ pages[i][p].bits \subseteq Slots /\ pages[i][p].left \in 0..Validity
+    /\ \A i \in Issuers : \A p \in 1..Len(pages[i]) : pages[i][p].last \in Slots /\ pages[i][p].bits \subseteq Slots /\ pages[i][p].stored \subseteq Slots /\ pages[i][p].left \in 0..Validity
 
 \* status-list positions handed to credentials are never shared
 SlotsUnique ==
@@ -332,7 +376,9 @@ SlotsOwn == \A c \in Own : cred[c].kind = "sl" => cred[c].list[1] = cred[c].iss 
 
 \* a set bit is never cleared (lists only grow)
 BitsMonotone ==
-    [][\A i \in Issuers : \A p \in 1..Len(pages[i]) : Len(pages'[i]) >= p /\ pages[i][p].bits \subseteq pages'[i][p].bits]_vars
+    [][\A i \in Issuers : \A p \in 1..Len(pages[i]) : /\ Len(pages'[i]) >= p
+                                                        /\ pages[i][p].bits \subseteq pages'[i][p].bits
+                                                        /\ pages[i][p].stored \subseteq pages'[i][p].stored]_vars
 
 \* every verification on a node that received the revocation / refreshed the list after the bit was set says "revoked" - for ever
 RevokedIsPermanent ==
@@ -348,6 +394,7 @@ IssuerOnly ==
     /\ \A c \in Own : cred[c].kind = "sl" => (c \in revoked <=> cred[c].slot \in Pg(cred[c].list).bits)
     /\ \A i \in Issuers : \A p \in 1..Len(pages[i]) :
            pages[i][p].bits \subseteq {cred[c].slot : c \in {d \in Own : cred[d].kind = "sl" /\ cred[d].list = <<i, p>>}}
+    /\ \A i \in Issuers : \A p \in 1..Len(pages[i]) : pages[i][p].stored \subseteq pages[i][p].bits
     /\ \A n \in Nodes, l \in Lists : cache[n][l].has => cache[n][l].signer = l[1]    \* no copy issued by another party
     /\ \A n \in Nodes : \A c \in Creds : (Issued(c) /\ CurVerdict(c, n) = "revoked") => Revocable(c)
     /\ \A c \in Creds : (Issued(c) /\ cred[c].kind # "net" /\ LocalVerdict(c) = "revoked") => Revocable(c)
